@@ -8,4 +8,6 @@ def run(tier, seed):
         rule="non-trivial = distinct schedule containing a timer expiry | plus the PyOpenSSL handshake phase: stall after 0, 1, 2 client flights and after completion")
     import tlsextra
     tlsextra.handshake_timer_cases(res)
+    tlsextra.silent_after_handshake_cases(res)
+    res.rule += " and a peer that goes silent after the handshake (nothing / partial line / partial upload body) and never answers close_notify"
     return res
